@@ -468,6 +468,7 @@ def tbLineCore (d : TBDrv) (lineNo : Nat) (ts : List String) : TBDrv × List Str
       else
       -- 2. monitors on the implementation's snapshot
       let (mon', vs) := TBSpec.onObs d.mon p.label p.implOk p.membership d.lastObs o
+      let d := if mon'.lcJudged > d.mon.lcJudged then { d with cnt := d.cnt.bump "life-cycle-steps-judged" } else d
       let (d, out2) := viol { d with mon := mon' } vs p.line
       if out1.isEmpty then
         ({ d with model := some (TB.normalize m), lastObs := some o, lastGate := (match o.gate with | some g => some g | none => d.lastGate), pending := none }, out2)
